@@ -31,6 +31,8 @@ claimed = {
              note="Filters are restricted to 'reject an arbitrary set of at most 1 (quick) / 2 (thorough) windows' (fully uninterpreted predicates explode as 2^windows). Orders 7..11 are outside the claim."),
  "C19": dict(design="5/C19", text="In a real-arithmetic abstraction of the float code: for all A/C/G/T sequences (both cases) up to the stated length and symbolic concentrations the solver decides that dH and dS are the nearest-neighbour sums plus initiation / symmetry / terminal-AT / salt terms (parameter values taken from the package's own table), the Tm formula with f = 1 or 4, case independence, independence of dH from concentrations, strict monotonicity of Tm in each concentration inside the duplex regime, MeltingTemp = SantaLucia at the default conditions, Marmur-Doty, and strand symmetry of the parameter table.",
              note="REAL-ARITHMETIC ABSTRACTION: every float64 operation is mapped to exact rational arithmetic and math.Log to an uninterpreted strictly monotone function; floating-point rounding is outside the claim (native replays compare with a 1e-9 relative tolerance)."),
+ "C02": dict(design="5/C02", text="Every location tree of the stated family (all spans / single bases with all partial-marker combinations over a 4- or 6-base parent, complements, joins of 2..3 (quick) / 2..4 (thorough) operands, complement(join), join containing complement(join)) is run through parseLocation / AddFeature / GetSequence / BuildLocationString from SSA with the parent bases symbolic over the IUPAC codes; the solver decides for all parents that parsed and assembled locations denote the INSDC bases, that written text is accepted by a strict INSDC recogniser, denotes the same bases and partial ends and parses back.",
+             note="Known finding C02-F1 (3' partial written as a..b>, pinned by TestGbkLocationStringBuilder) is scoped to the syntax clause of trees with a 3' partial end. The tree shape is enumerated (forked); the solver covers the parent sequence."),
 }
 
 na_reason = {}
